@@ -1,6 +1,7 @@
 (* C02 - the checksum catches every single-word error and every swap of two words.
    Only statements; each is closed by an exact reference to the lemma that proves it. *)
-From PS Require Import Base GFDefs SpecDefs GFProofs.
+From PS Require Import Base GFDefs SpecDefs GFProofs ApiDefs SpecApi PackTheorems CoinProofs PhraseErrors ApiLemmas RefineProofs ApiTheorems RoundTrip.
+From PS.Gen Require Import Consts Langs.
 Local Open Scope N_scope.
 
 (* every polynomial of 16 coefficients that validates stops validating when one
@@ -30,6 +31,45 @@ Theorem C02_field : (forall x, x < 2048 -> mul2 x = gf_mulx x) /\
   (forall c, wf c -> (length c <= 16)%nat -> poly_eval c = spec_eval c).
 Proof. exact (conj mul2_is_mulx eval_is_spec). Qed.
 Print Assumptions C02_field.
+
+(* ---- on the words of a phrase, i.e. the indices AFTER the coin was XORed into the second word *)
+Theorem C02_phrase_substitution : forall (w : list N) (coin : N) (i : nat) (j : N),
+  wf w -> length w = 16%nat -> coin < 2048 -> poly_eval (xor_coin w coin) = 0 ->
+  (i < 16)%nat -> j < 2048 -> j <> nth i w 0 ->
+  poly_eval (xor_coin (upd w i j) coin) <> 0.
+Proof. exact phrase_substitution. Qed.
+Print Assumptions C02_phrase_substitution.
+
+Theorem C02_phrase_transposition : forall (w : list N) (coin : N) (i k : nat),
+  wf w -> length w = 16%nat -> coin < 2048 -> poly_eval (xor_coin w coin) = 0 ->
+  (i < k)%nat -> (k < 16)%nat -> nth i w 0 <> nth k w 0 ->
+  poly_eval (xor_coin (swapv w i k) coin) <> 0.
+Proof. exact phrase_transposition. Qed.
+Print Assumptions C02_phrase_transposition.
+
+(* ---- at the API: ANY sixteen words of a language whose indices do not validate for the coin are
+   refused with CHECKSUM - decided before any allocation or feature check, the state untouched.
+   With the two theorems above: a valid phrase with one word replaced, or two different words
+   exchanged, is never accepted.  Premise as in C01: normalising the input yields the words
+   separated by single spaces. *)
+Theorem C02_decode_checksum : forall sgn cs a li L idx coin ok P, R cs a ->
+  nth_error langs li = Some L -> coin < 2048 -> wf idx -> length idx = 16%nat ->
+  fst (spec_norm (dp_nfkd (st_deps cs)) P) = SpecDefs.sjoin [x20] (map (spec_word L) idx) -> no_nul P ->
+  poly_eval (xor_coin idx coin) <> 0 ->
+  outp (step sgn langs cs (OpDecodeExplicit P coin li ok)) = OutStatus ST_CHECKSUM None None /\
+  stp (step sgn langs cs (OpDecodeExplicit P coin li ok)) = cs.
+Proof. exact invalid_indices_checksum. Qed.
+Print Assumptions C02_decode_checksum.
+
+(* a stored image whose check value is not the evaluation of its data is refused with CHECKSUM *)
+Theorem C02_load_checksum : forall sgn cs a buf s ck, R cs a -> length buf = 32%nat -> StoreProofs.bytes_ok buf ->
+  spec_parse buf = Some (s, ck) -> ck <> spec_checksum s ->
+  outp (step sgn langs cs (OpLoad buf true)) = OutStatus ST_CHECKSUM None None.
+Proof.
+  intros sgn cs a buf s ck HR Hl Hb Hp Hne. destruct (load_precedence sgn cs a buf HR Hl Hb) as [P _].
+  rewrite P, Hp. replace (ck =? spec_checksum s) with false by (symmetry; apply N.eqb_neq, Hne). reflexivity.
+Qed.
+Print Assumptions C02_load_checksum.
 
 (* non-vacuity: the polynomial of the suite's first phrase validates *)
 Example C02_witness :
